@@ -184,6 +184,57 @@ func (exec *Executor) execBinaryMathExpr(
 	return exec.executeNextItem(ctx, node, next, val, found)
 }
 
+// integerMath applies op to lhs and rhs with integer math unless the exact
+// result does not fit in an int64, in which case it falls back on float math
+// rather than returning a wrapped integer.
+func integerMath(lhs, rhs int64, op ast.BinaryOperator) (any, error) {
+	if integerMathOverflows(lhs, rhs, op) {
+		return floatMath(float64(lhs), float64(rhs), op)
+	}
+	return executeIntegerMath(lhs, rhs, op)
+}
+
+// integerMathOverflows returns true if the exact result of applying op to lhs
+// and rhs does not fit in an int64.
+func integerMathOverflows(lhs, rhs int64, op ast.BinaryOperator) bool {
+	switch op {
+	case ast.BinaryAdd:
+		sum := lhs + rhs
+		return (rhs > 0 && sum < lhs) || (rhs < 0 && sum > lhs)
+	case ast.BinarySub:
+		diff := lhs - rhs
+		return (rhs > 0 && diff > lhs) || (rhs < 0 && diff < lhs)
+	case ast.BinaryMul:
+		if lhs == 0 || rhs == 0 {
+			return false
+		}
+		if (lhs == -1 && rhs == math.MinInt64) || (rhs == -1 && lhs == math.MinInt64) {
+			return true
+		}
+		return (lhs*rhs)/rhs != lhs
+	case ast.BinaryDiv:
+		return lhs == math.MinInt64 && rhs == -1
+	default:
+		return false
+	}
+}
+
+// floatMath applies op to lhs and rhs with float math and returns an error if
+// the result is not a finite number.
+func floatMath(lhs, rhs float64, op ast.BinaryOperator) (any, error) {
+	res, err := executeFloatMath(lhs, rhs, op)
+	if err != nil {
+		return nil, err
+	}
+	if math.IsInf(res, 0) || math.IsNaN(res) {
+		return nil, fmt.Errorf(
+			"%w: result of jsonpath operator %v is out of range",
+			ErrVerbose, op,
+		)
+	}
+	return res, nil
+}
+
 // execMathOp casts left and right into numbers and, if it succeeds, applies
 // the binary math op to left and right. left and right must be an int64, a
 // float64, or a [json.Number]. In the latter case, execMathOp tries to cast
@@ -193,15 +244,15 @@ func execMathOp(left, right any, op ast.BinaryOperator) (any, error) {
 	case int64:
 		switch right := right.(type) {
 		case int64:
-			return executeIntegerMath(left, right, op)
+			return integerMath(left, right, op)
 		case float64:
-			return executeFloatMath(float64(left), right, op)
+			return floatMath(float64(left), right, op)
 		case json.Number:
 			if right, err := right.Int64(); err == nil {
-				return executeIntegerMath(left, right, op)
+				return integerMath(left, right, op)
 			}
 			if right, err := right.Float64(); err == nil {
-				return executeFloatMath(float64(left), right, op)
+				return floatMath(float64(left), right, op)
 			}
 			return nil, mathOperandErr(op, "right")
 		default:
@@ -210,12 +261,12 @@ func execMathOp(left, right any, op ast.BinaryOperator) (any, error) {
 	case float64:
 		switch right := right.(type) {
 		case float64:
-			return executeFloatMath(left, right, op)
+			return floatMath(left, right, op)
 		case int64:
-			return executeFloatMath(left, float64(right), op)
+			return floatMath(left, float64(right), op)
 		case json.Number:
 			if right, err := right.Float64(); err == nil {
-				return executeFloatMath(left, right, op)
+				return floatMath(left, right, op)
 			}
 			return nil, mathOperandErr(op, "right")
 		default:
